@@ -31,6 +31,7 @@ const rule = "case = environment in {development, production, test} x Recovery p
 
 var assumptions = []string{
 	"panic values are non-nil (statement)",
+	"'with Recovery installed': Use(Recovery()) protects the requests served after the call, also on routes that have answered requests before",
 	"the process-global environment (SetEnv) is set per case; cases run one at a time in a process",
 	"'the client gets status 500' includes what the framework's own writer reports: a middleware in front of Recovery that reads ResponseWriter().Status() after Next() reads the status the client got",
 	"a chain in which nothing panics answers what its handlers wrote (the interpreter's reading of Next / cancellation is C03's; such cases serve as the healthy baseline here)",
@@ -500,7 +501,11 @@ func serveM(a *app, method, path string) (r resp) {
 		req.RemoteAddr = "[::1]:49152"
 	case "body-open":
 		// an upload that is still going on: the body neither ends nor fails
+		// (it ends after a while: a recovery that waits for the end of the body
+		// before it answers is slow, not wrong - one that waits for ever is)
 		pr, pw := io.Pipe()
+		stop := time.AfterFunc(300*time.Millisecond, func() { pw.Close() })
+		defer stop.Stop()
 		defer pw.Close()
 		req.Body = pr
 		req.ContentLength = -1
@@ -690,6 +695,16 @@ func checkCase(c Case) (out evid.Outcome) {
 		if want.cancelled {
 			out.NonTrivial = true
 			out.Classes = append(out.Classes, "panic-with-cancelled-context")
+		}
+	}
+	if c.ReqHdr != "" {
+		out.Classes = append(out.Classes, "request:"+c.ReqHdr)
+	}
+	for _, h := range c.After {
+		for _, op := range h.Ops {
+			if strings.HasPrefix(op, "pd:") {
+				out.Classes = append(out.Classes, "panic-from-a-deep-stack")
+			}
 		}
 	}
 	out.Classes = append(out.Classes, "env:"+c.Env, "at:"+c.RecoveryAt)
